@@ -11,7 +11,7 @@ from ..core import pool, evidence, sut, reach
 from ..core.seeds import rng_for, verif_seed
 from ..ragsim import gen, schedule
 from ..ragsim.case import (make_case, side, evaluate, div_class, explained_by_stale_alias, pretty,
-                           hazard_info)
+                           hazard_info, neutralise_text)
 from ..ragsim.execute import run, first_divergence, step_dsts
 from ..ragsim.minimise import minimise
 from ..ragsim.syntax import analyse
@@ -112,6 +112,8 @@ def one_run(prop, seed, i, k, acc):
             nontrivial_any = True
             acc["__distinct_nontrivial__"].add(_h(psig + "##" + ssig))
         run_digest.update(json.dumps([sb, ea.out, ea.dump, eb.out, eb.dump], sort_keys=True).encode())
+        if prop == "C19":
+            neutralise_text({"program": prog, "a": sa, "b": sb}, ea, eb)
         d = first_divergence(ea, eb)
         if d is not None:
             case = make_case(prop, prog, sa, sb, hazard_free=not hazard_stream,
